@@ -1,5 +1,6 @@
 //! One module per property, plus shared oracles and drivers.
 pub mod bprog;
+pub mod clones;
 pub mod cplx;
 pub mod drive;
 pub mod oracles;
